@@ -1423,12 +1423,23 @@ func sliceToArrayPointer(t_dst, t_src types.Type, x value) value {
 // checkInterface checks that the method set of x implements the
 // interface itype.
 // On success it returns "", on failure, an error message.
+type ifaceCheckKey struct {
+	t  types.Type
+	it *types.Interface
+}
+
 func checkInterface(i *interpreter, itype *types.Interface, x iface) string {
+	key := ifaceCheckKey{x.t, itype}
+	if v, ok := i.eng.ifaceChecks.Load(key); ok {
+		return v.(string)
+	}
+	res := ""
 	if meth, _ := types.MissingMethod(x.t, itype, true); meth != nil {
-		return fmt.Sprintf("interface conversion: %v is not %v: missing method %s",
+		res = fmt.Sprintf("interface conversion: %v is not %v: missing method %s",
 			x.t, itype, meth.Name())
 	}
-	return "" // ok
+	i.eng.ifaceChecks.Store(key, res)
+	return res
 }
 
 func foldLeft(op func(value, value) value, args []value) value {
